@@ -16,10 +16,13 @@ let () =
     | ["action"; a; b] -> print_endline (action_s (update_action (cl a) (cl b)))
     | ["checksum"; c; a] ->
       (match parse_checksum (cl c) (cl a) with None -> print_endline "none" | Some h -> print_endline ("some " ^ hex (string_of_chars h)))
+    | ["verdict"; c; a; h] ->
+      print_endline (match checksum_verdict (if c = "!" then None else Some (cl c)) (cl a) (cl h) with
+                     | Verified -> "Verified" | NoChecksums -> "NoChecksums" | NoEntry -> "NoEntry" | Mismatch -> "Mismatch")
     | "seq" :: d :: invs ->
       let rec go disk = function
         | n :: sk :: cur :: f :: rest ->
-          let i = { now = z_of_int (int_of_string n); skip_env = (sk = "1"); curv = cl cur;
+          let i = { now = z_of_int (int_of_string n); skip_env = (sk = "1"); writable = not (sk = "2" || sk = "3"); curv = cl cur;
                     fetch = (if f = "!" then None else Some (cl f)) } in
           let (ns, disk') = check_for_updates disk i in
           let lbl = match disk' with _ -> "" in ignore lbl;
